@@ -126,12 +126,15 @@ def generate(tier, seed, ctx):
     q = tier == 'quick'
     out = []
 
-    def rec(kind, n, e, ln, fn):
+    def rec(kind, n, e, ln, fn, outn=None, tags=()):
         """every library call of this driver goes through here, under the budgeted tracer"""
-        b = bound(n + e + ln)
+        b = bound(n + e + ln + (outn or 0))
         holder = []
         work, aborted, outcome = measure(fn, b, holder)
-        out.append({'op': 'work', 'kind': kind, 'n': n, 'e': e, 'len': ln, 'work': work, 'aborted': aborted, 'budget': b, 'outcome': outcome})
+        r = {'op': 'work', 'kind': kind, 'n': n, 'e': e, 'len': ln, 'work': work, 'aborted': aborted, 'budget': b, 'outcome': outcome, 'tags': list(tags)}
+        if outn is not None:
+            r['outn'] = outn
+        out.append(r)
         return holder[0] if holder else None
 
     roots = []
@@ -263,6 +266,28 @@ def generate(tier, seed, ctx):
             continue
         n, e = dag_size(cell)
         rec('dict_parse', n, e, 0, lambda: HashMap.parse(cell.begin_parse(), w))
+    # dictionaries whose fork cells reference the same child twice (a DAG): L forks over one shared end cell.
+    # (a) the end is a leaf: a valid map of 2^L keys - the result itself has 2^L entries, counted with the input (outn);
+    # (b) the end is a pruned branch: the result is empty, every path is still a path (tag: the known finding C19-KF1 covers
+    #     exactly this input class; the same family through the augmented parser carries its own kind)
+    def shared_forks(L, end):
+        c = end
+        for _ in range(L):
+            c = Builder().store_bits('00').store_ref(c).store_ref(c).end_cell()
+        return c
+    leaf = Builder().store_bits('00').store_uint(7, 8).end_cell()
+    prb = Builder(type_=1)
+    prb.store_bytes(bytes([1, 1]) + leaf.hash + b'\x00\x00')
+    prb = prb.end_cell()
+    for L in ((2, 6, 10) if q else (2, 6, 10, 13)):
+        c = shared_forks(L, leaf)
+        rec('dict_parse_shared_forks_to_leaves', L + 1, 2 * L, 0, lambda: HashMap.parse(c.begin_parse(), L), outn=2 ** L)
+    for L in ((2, 6, 12, 20, 30) if q else (2, 4, 6, 8, 12, 16, 20, 24, 30, 60)):
+        c = shared_forks(L, prb)
+        rec('dict_parse_shared_forks_to_pruned', L + 1, 2 * L, 0, lambda: HashMap.parse(c.begin_parse(), 256), tags=['dict_shared_forks_pruned'])
+        from pytoniq_core.boc.hashmap.parse import parse_hashmap_aug
+        rec('dict_parse_aug_shared_forks_to_pruned', L + 1, 2 * L, 0,
+            lambda: parse_hashmap_aug(c.begin_parse(), 256, lambda sl: None, lambda sl: None), tags=['dict_shared_forks_pruned'])
     # dictionary labels with maximal length fields on short cells
     for bits in ('10' + '1' * 10 + '0' * 5, '11' + '1' + '1' * 10, '0' + '1' * 300, '10' + '1' * 9):
         c = Builder().store_bits(bits).end_cell()
